@@ -74,6 +74,8 @@ func payload(size string, compressible bool, seed int64) []byte {
 		n = 10 << 20 // plugins.MaxCompressionBufferSize
 	case "cap+1":
 		n = 10<<20 + 1
+	case "cap+100k":
+		n = 10<<20 + 100<<10 + 17
 	}
 	b := make([]byte, n)
 	if compressible {
@@ -143,6 +145,7 @@ func scripted(w http.ResponseWriter, r *http.Request) {
 			SetCL        bool   `json:"setcl"`
 			Flush        bool   `json:"flush"`
 			Interim      bool   `json:"interim"`
+			Writes       string `json:"writes"`
 		}
 		json.Unmarshal([]byte(r.Header.Get("X-Verif-Case")), &c)
 		seed, _ := strconv.ParseInt(r.Header.Get("X-Verif-Seed"), 10, 64)
@@ -172,7 +175,23 @@ func scripted(w http.ResponseWriter, r *http.Request) {
 		if c.Explicit || c.Status != 200 {
 			w.WriteHeader(c.Status)
 		}
-		// two writes, like a proxy copy loop
+		if c.Writes == "32k" {
+			// the way a proxy copy loop delivers a large body
+			for off := 0; off < len(body); off += 32 << 10 {
+				end := off + 32<<10
+				if end > len(body) {
+					end = len(body)
+				}
+				w.Write(body[off:end])
+				if c.Flush {
+					if f, ok := w.(http.Flusher); ok {
+						f.Flush()
+					}
+				}
+			}
+			return
+		}
+		// two writes
 		half := len(body) / 2
 		w.Write(body[:half])
 		if c.Flush {
